@@ -64,6 +64,21 @@ CLAIMED = {
         'The specification without the recorded repairs is rejected by TLC (sensitivity).',
         'Bounded as C04. Time is not modelled: with a timeout configured every wait may time out.',
         '5/C05'),
+    'C01': (
+        'TLA+ spec MergeAlgebra.tla (histories of new/add/merge/merge_states; conservation, operand frame, neutrality checked by TLC); every bounded history replayed on 46 adapters of all shipped mergeable aggregates against a one-batch reference',
+        'TLC checks the algebra and enumerates every bounded history; each is replayed on every shipped mergeable aggregate (both API shapes) over '
+        'case-analysis datasets (NaN columns, ragged rankings, labels missing from a shard, empty shards/batches). After every step the result of the '
+        'accumulator acted upon (read on a deep copy) must equal one fresh accumulator fed the same items in one batch; values returned per example must '
+        'not depend on batch mates.',
+        'Bounded: 3 accumulators, 4 items, batches of 0..4, <=3 merges, <=7 steps; concrete numbers from fixed datasets, float tolerance 1e-7 relative.',
+        '5/C01'),
+    'C11': (
+        'same MergeAlgebra.tla replay in observed mode: results of ALL accumulators read twice after every step',
+        'As C01, plus: any accumulator not acted upon must keep its result (operands are not damaged, no aliasing after merge), reading a result twice '
+        'gives the same value and does not disturb later updates, a fresh state is neutral on either side, merged results equal the one-batch reference '
+        'for every bracketing/order the histories contain.',
+        'Bounded as C01.',
+        '5/C11'),
 }
 
 PENDING = {}
